@@ -19,6 +19,14 @@ EXC = [E0, E1, E2, E3]
 BASES = [Exception, ValueError, LookupError, E1, OSError]
 
 
+def _bases_arg(pol):
+    bs = [BASES[b] for b in pol["bases"]]
+    form = pol.get("bases_form", "list")
+    if form == "single" and len(bs) == 1:
+        return bs[0]
+    return tuple(bs) if form == "tuple" else bs
+
+
 def gen(rng, cancels=False, faults=False):
     nsub = rng.randint(1, 3)
     subs = []
@@ -34,7 +42,9 @@ def gen(rng, cancels=False, faults=False):
         subs.append({"script": script, "cbs": rng.randint(0, 2), "late_cb": rng.random() < 0.5})
     if rng.random() < 0.6:
         pol = {"kind": "exc", "max_attempts": rng.randint(1, 4), "sleep": rng.randint(0, 3), "exponent": rng.randint(1, 3),
-               "max_sleep": rng.randint(1, 10), "bases": sorted(rng.sample(range(len(BASES)), rng.randint(1, 2)))}
+               "max_sleep": rng.randint(1, 10), "bases": sorted(rng.sample(range(len(BASES)), rng.choice([0, 1, 1, 1, 2, 2]))),
+               # how exception_base is spelled: a list, a tuple, or (for one class) the class itself
+               "bases_form": rng.choice(["list", "list", "tuple", "single"])}
     else:
         pol = {"kind": "script",
                "sr": [rng.choice([1, 1, 1, 0, 2]) if (faults or rng.random() < 0.8) else 1 for _ in range(12)],
@@ -71,7 +81,7 @@ def execute(p, chooser):
                     det.user("sleep_time", (attempt, 0, ans))
                     return ans
             policy = P(max_attempts=pol["max_attempts"], sleep=pol["sleep"], exponent=pol["exponent"],
-                       max_sleep=pol["max_sleep"], exception_base=[BASES[b] for b in pol["bases"]])
+                       max_sleep=pol["max_sleep"], exception_base=_bases_arg(pol))
         else:
             cnt = {"sr": 0, "st": 0}
 
